@@ -382,6 +382,13 @@ func run(c *core.Ctx) error {
 	c.Assume("weak fairness of every loop and of every goroutine inside a call (liveness); Go's select is modelled as a non-deterministic choice among ready arms")
 	c.Assume("data-race freedom is exploration-level evidence (race detector on executed schedules), not part of the model")
 
+	// ---------------- 0. cancellation in the middle of the collection (CancelSearch.tla)
+	if _, ok := c.ModelCheck("CancelSearch", "CancelSearch_mc.cfg", core.Workers(1), core.Timeout(5*time.Minute)); ok {
+		if err := cancelMidCollection(c); err != nil {
+			return err
+		}
+	}
+
 	// ---------------- 1. the model decides (in parallel with the stress)
 	// VERIF_C11_DEV=stress is a development aid (mutant trials): only the stress + trace validation
 	if os.Getenv("VERIF_C11_DEV") == "race" { // development aid: only the race-detector part
